@@ -1175,6 +1175,12 @@ class H2Connection:
         if origin is not None and stream_id is not None:
             raise ValueError("Must not provide both origin and stream_id")
 
+        if self.config.client_side:
+            # RFC 7838 section 4: only servers advertise alternative services.
+            raise ProtocolError(
+                "Clients cannot advertise alternative services."
+            )
+
         self.state_machine.process_input(
             ConnectionInputs.SEND_ALTERNATIVE_SERVICE
         )
